@@ -730,10 +730,77 @@ func c14QueueTables(c *Ctx) {
 			sym := func(v ssa.Value) string { return ab(canon(fl.K.Key(v))) }
 			ok := len(paths) > 0
 			var detail []string
+			// an ordering test written on a difference of the two indices (`n := tail-head+1; if n <= 0`) is the
+			// wrap test in another spelling: X op Y with X-Y = ±(tail-head)+c bounds d = tail-head, and
+			// d <= -1 is tail < head
+			type alias struct{ flip bool }
+			aliases := map[string]alias{}
+			eachInstr(ln, func(in ssa.Instruction) {
+				bo, isBo := in.(*ssa.BinOp)
+				if !isBo {
+					return
+				}
+				switch bo.Op {
+				case token.LSS, token.LEQ, token.GTR, token.GEQ:
+				default:
+					return
+				}
+				diff := polyOf(bo.X, sym).add(polyOf(bo.Y, sym), -1)
+				a, cst := diff["tail"], diff[""]
+				n := 2
+				if cst != 0 {
+					n = 3
+				}
+				if (a != 1 && a != -1) || diff["head"] != -a || len(diff) != n {
+					return
+				}
+				// X op Y  <=>  a*d + cst op 0; as an upper or lower bound on d
+				upper, bound := false, int64(0) // upper: d <= bound; lower: d >= bound
+				switch {
+				case a == 1 && bo.Op == token.LSS:
+					upper, bound = true, -cst-1
+				case a == 1 && bo.Op == token.LEQ:
+					upper, bound = true, -cst
+				case a == 1 && bo.Op == token.GTR:
+					upper, bound = false, -cst+1
+				case a == 1 && bo.Op == token.GEQ:
+					upper, bound = false, -cst
+				case a == -1 && bo.Op == token.LSS: // -d + cst < 0  <=>  d >= cst+1
+					upper, bound = false, cst+1
+				case a == -1 && bo.Op == token.LEQ:
+					upper, bound = false, cst
+				case a == -1 && bo.Op == token.GTR: // -d + cst > 0 <=> d <= cst-1
+					upper, bound = true, cst-1
+				case a == -1 && bo.Op == token.GEQ:
+					upper, bound = true, cst
+				}
+				var condIsWrapped bool
+				switch {
+				case upper && bound == -1:
+					condIsWrapped = true
+				case !upper && bound == 0:
+					condIsWrapped = false
+				default:
+					return
+				}
+				var fs []Fact
+				abbrevFn = ab
+				fl.decompose(bo, true, &fs)
+				if len(fs) == 1 {
+					if l, isLit := litOf(fs[0]); isLit {
+						// the literal (atom, val) holds when the condition holds
+						aliases[l.Atom] = alias{flip: l.Val != condIsWrapped}
+					}
+				}
+				abbrevFn = func(x string) string { return x }
+			})
 			for _, d := range paths {
 				val := map[string]bool{}
 				for _, l := range d.Lits {
 					val[l.Atom] = l.Val
+					if al, isAl := aliases[l.Atom]; isAl {
+						val["tail < head"] = l.Val != al.flip
+					}
 				}
 				var want poly
 				switch {
@@ -747,6 +814,11 @@ func c14QueueTables(c *Ctx) {
 				if _, has := val["c:-1 == head"]; !has {
 					ok = false
 					detail = append(detail, "a path does not test for the empty queue")
+					continue
+				}
+				if _, has := val["tail < head"]; !has && !val["c:-1 == head"] {
+					ok = false
+					detail = append(detail, "a path for the non-empty queue does not test whether the occupied part wraps (tail < head)")
 					continue
 				}
 				got := polyOf(d.Results[0], sym)
